@@ -126,7 +126,7 @@ class RegularizedIterativeSENSEReconstruction(DirectReconstruction):
         # Add regularization
         if not torch.all(self.regularization_weight == 0):
             operator = operator + IdentityOp() @ (self.regularization_weight * self.regularization_op)
-            right_hand_side += self.regularization_weight * self.regularization_data
+            right_hand_side = right_hand_side + self.regularization_weight * self.regularization_data
 
         img_tensor = cg(
             operator,
